@@ -108,7 +108,7 @@ def session_stats(sess, ctx=None):
         st["clock_reads"] = sess.clock.reads
         if sess.clock.jumps:
             st["fired_clock"] = sess.clock.jumps
-        st["sim_seconds"] = int(sess.clock.covered)
+        st["sim_seconds"] = sess.clock.covered
     st["ops"] = len(sess.outcomes)
     for o in sess.outcomes:
         if o.exc is not None and not o.injected:
